@@ -5,7 +5,9 @@
 
    (a) dataset.py: the text-header attribute codec.  [py_repr] is CPython's repr() on str / int /
        float (the writer's format  # {}: {!r}  per line), [parse_attr] transcribes _parse_attribute_value,
-       [header_line]/[parse_line] the header writer and the reader's line splitting.
+       [header_line]/[parse_line] the header writer and the reader's line splitting,
+       [scheme_name]/[parse_special] the numbered attribute / special-column names and the reader's
+       recogniser of axisN_index / axisN_scale.
    (b) dataset.py: the special index / scale columns of write_dataset_to_text and the checks of
        read_dataset_from_text (np.tile(np.repeat(np.arange(n), inner), outer), row-major reshape).
    (c) datastore.py: DataStore.make_folder, list_folders, find_latest_folder,
@@ -294,6 +296,61 @@ Definition parse_line (line : str) : option (str * str) :=
       | _ => None
       end
   end.
+
+(* --- numbered names: the writer renders an axis / column number into attribute names and into
+   the labels of the special columns with str.format (decimal); the reader finds attributes by
+   rendering the same name again and recognises a special column by
+   label.startswith(axis) and label.endswith(_index | _scale), axis = int(label[4:-6]) ---------- *)
+
+Definition dec_nat (n : nat) : str := dec (N.of_nat n).
+Definition numbered (pre : str) (n : nat) (suf : str) : str := pre ++ dec_nat n ++ suf.
+
+Definition sAxis : str := [97; 120; 105; 115].                       (* axis *)
+Definition sIndexSuf : str := [95; 105; 110; 100; 101; 120].       (* _index *)
+Definition sScaleSuf : str := [95; 115; 99; 97; 108; 101].        (* _scale *)
+Definition pAxisAttr : str := [81; 77; 73; 95; 68; 97; 116; 97; 83; 101; 116; 95; 97; 120; 105; 115].   (* QMI_DataSet_axis *)
+Definition pColAttr : str := [81; 77; 73; 95; 68; 97; 116; 97; 83; 101; 116; 95; 99; 111; 108; 117; 109; 110].   (* QMI_DataSet_column *)
+Definition sSize : str := [95; 115; 105; 122; 101].    (* _size *)
+Definition sLabel : str := [95; 108; 97; 98; 101; 108].   (* _label *)
+Definition sUnit : str := [95; 117; 110; 105; 116].    (* _unit *)
+
+Inductive nscheme := NAxisSize | NAxisLabel | NAxisUnit | NColLabel | NColUnit | NIndex | NScale.
+Definition scheme_name (k : nscheme) (n : nat) : str :=
+  match k with
+  | NAxisSize => numbered pAxisAttr n sSize
+  | NAxisLabel => numbered pAxisAttr n sLabel
+  | NAxisUnit => numbered pAxisAttr n sUnit
+  | NColLabel => numbered pColAttr n sLabel
+  | NColUnit => numbered pColAttr n sUnit
+  | NIndex => numbered sAxis n sIndexSuf
+  | NScale => numbered sAxis n sScaleSuf
+  end.
+
+Fixpoint starts_with (p s : str) : bool :=
+  match p, s with
+  | [], _ => true
+  | x :: p', y :: s' => N.eqb x y && starts_with p' s'
+  | _ :: _, [] => false
+  end.
+Definition ends_with (suf s : str) : bool := starts_with (rev suf) (rev s).
+Definition middle (s : str) : str := firstn (length s - 10) (skipn 4 s).      (* label[4:-6] *)
+
+(* Python int() on the middle part.  Modelled: optional sign and ASCII digits (value), and plain
+   ASCII junk (ValueError).  Not modelled (IntUnmodelled): the other spellings int() accepts —
+   surrounding white space, underscores between digits, non-ASCII decimal digits. *)
+Inductive intres := IntOk (z : Z) | IntErr | IntUnmodelled.
+Definition py_int (s : str) : intres :=
+  if existsb (fun c => is_space c || N.eqb c 95 || N.leb 128 c) s then IntUnmodelled
+  else if int_shape s then match parse_int s with Some z => IntOk z | None => IntErr end
+  else IntErr.
+
+Inductive special := SIndex (z : Z) | SScale (z : Z) | SOther | SBadInt | SUnmodelled.
+Definition parse_special (l : str) : special :=
+  if starts_with sAxis l && ends_with sIndexSuf l then
+    match py_int (middle l) with IntOk z => SIndex z | IntErr => SBadInt | IntUnmodelled => SUnmodelled end
+  else if starts_with sAxis l && ends_with sScaleSuf l then
+    match py_int (middle l) with IntOk z => SScale z | IntErr => SBadInt | IntUnmodelled => SUnmodelled end
+  else SOther.
 
 (* ============================================================================================ *)
 Local Close Scope N_scope.
